@@ -20,6 +20,8 @@ COMMENTS = (('PI_CONTACT_INFO', 'someone@example.org'), ('DATA_INFO', 'ratio 1:2
 LODS = ('N/A', '0.5', 'per-variable', 'varies; see UNCERTAINTY', 'see the PI')
 F4CODES = (-999.99, -9999.9, -99999.5, -8888.)
 NAMES = ('O3_ppbv', 'NO2_ppbv', 'CO')
+# names that are substrings of the independent variable's name (Start_UTC)
+SUBNAMES = ('UTC', 'Start', 'T')
 UNITS = ('ppbv', 'ppbv', 'ppmv')
 
 
@@ -107,6 +109,10 @@ class Prop(core.Prop):
                     yield dict(group, miss=mi, mask=mk, comments=0, indep_units=True, source=src, lodvals=True)
                     yield dict(group, miss=mi, mask=mk, comments=0, indep_units=True, source=src, lodvals=True,
                                lod=0, lodwhich='both')
+        # dependent variables whose names are contained in the independent variable's name
+        for mk in ('none', 'one'):
+            for src in ('built', 'text'):
+                yield dict(group, miss=0, mask=mk, comments=0, indep_units=True, source=src, subnames=True)
         # fractional sampling times late in the day
         for mk in ('none', 'one'):
             for src in ('built', 'text'):
@@ -179,7 +185,7 @@ class Prop(core.Prop):
             for i in range(nrec):
                 rows.append([time[i]] + [misses[j] if m[i, j] else t[i, j] for j in range(ndep)])
             rec = dict(indep=('Start_UTC', 'seconds' if case['indep_units'] else None),
-                       deps=[(NAMES[j], UNITS[j], misses[j]) for j in range(ndep)],
+                       deps=[(self.names[j], UNITS[j], misses[j]) for j in range(ndep)],
                        normal=comments, rows=rows)
             path = os.path.join(self.tmp, 'src_%d.ict' % os.getpid())
             with open(path, 'w') as fh:
@@ -209,14 +215,14 @@ class Prop(core.Prop):
                 indep()
             if case['source'] == 'built-values':
                 # data handed over as a masked array: the array keeps numpy's own fill value next to missing_value
-                v = f.createVariable(NAMES[j], dt, ('POINTS',), missing_value=misses[j], units=UNITS[j],
+                v = f.createVariable(self.names[j], dt, ('POINTS',), missing_value=misses[j], units=UNITS[j],
                                      values=np.ma.MaskedArray(t[:, j].astype(dt), mask=m[:, j].copy()))
                 continue
             if case['source'] == 'built-fillvalue':
                 # masked variable that carries its missing code only as the fill value
-                v = f.createVariable(NAMES[j], dt, ('POINTS',), fill_value=misses[j], units=UNITS[j])
+                v = f.createVariable(self.names[j], dt, ('POINTS',), fill_value=misses[j], units=UNITS[j])
             else:
-                v = f.createVariable(NAMES[j], dt, ('POINTS',), missing_value=misses[j], units=UNITS[j])
+                v = f.createVariable(self.names[j], dt, ('POINTS',), missing_value=misses[j], units=UNITS[j])
             v[:] = np.ma.MaskedArray(t[:, j], mask=m[:, j])
             if case.get('scale_attr'):
                 v.scale = (0.001, 1000., 2.5)[j]
@@ -227,7 +233,7 @@ class Prop(core.Prop):
     def compare(self, g, t, m, misses, ndep, sig, scope, tag):
         vs = []
         names = [k for k in g.variables.keys()]
-        want = ['Start_UTC'] + list(NAMES[:ndep])
+        want = ['Start_UTC'] + list(self.names[:ndep])
         if names != want:
             vs.append(viol('names-order', sig, '%s: %r expected %r' % (tag, names, want), **scope))
             return vs
@@ -237,28 +243,29 @@ class Prop(core.Prop):
             vs.append(viol('independent-variable', sig, '%s: Start_UTC %s expected %s' % (
                 tag, tgot.tolist()[:3], self._time.tolist()[:3]), **scope))
         for j in range(ndep):
-            v = g.variables[NAMES[j]]
+            v = g.variables[self.names[j]]
             arr = v[...]
             gm = np.ma.getmaskarray(arr)
             gd = np.ma.getdata(arr)
             if getattr(v, 'units', None) != UNITS[j]:
-                vs.append(viol('units', sig, '%s: %s units %r expected %r' % (tag, NAMES[j], getattr(v, 'units', None),
+                vs.append(viol('units', sig, '%s: %s units %r expected %r' % (tag, self.names[j], getattr(v, 'units', None),
                                                                               UNITS[j]), **scope))
             if float(getattr(v, 'missing_value', np.nan)) != misses[j]:
                 vs.append(viol('missing-code', sig, '%s: %s missing_value %r expected %r'
-                               % (tag, NAMES[j], getattr(v, 'missing_value', None), misses[j]), **scope))
+                               % (tag, self.names[j], getattr(v, 'missing_value', None), misses[j]), **scope))
             if gm.shape != m[:, j].shape or not np.array_equal(gm, m[:, j]):
-                vs.append(viol('mask', sig, '%s: %s mask %s expected %s' % (tag, NAMES[j], gm.astype(int).tolist(),
+                vs.append(viol('mask', sig, '%s: %s mask %s expected %s' % (tag, self.names[j], gm.astype(int).tolist(),
                                                                             m[:, j].astype(int).tolist()), **scope))
                 continue
             bad = [(a, b) for a, b, mm in zip(gd, t[:, j], m[:, j]) if not mm and not sig7(a, b)]
             if bad:
-                vs.append(viol('values', sig, '%s: %s %r expected %r' % (tag, NAMES[j], bad[0][0], bad[0][1]),
+                vs.append(viol('values', sig, '%s: %s %r expected %r' % (tag, self.names[j], bad[0][0], bad[0][1]),
                                **scope))
         return vs
 
     def run_one(self, case):
         P = lib.pnc()
+        self.names = SUBNAMES if case.get('subnames') else NAMES
         from PseudoNetCDF.icarttfiles.ffi1001 import ncf2ffi1001
         t, m = self.table(case)
         miss = MISS[case['miss']]
@@ -270,7 +277,8 @@ class Prop(core.Prop):
                      indep_units=case['indep_units'], ncomments=bin(case['comments']).count('1'), miss=miss,
                      percode=bool(case.get('percode')), scale_attr=bool(case.get('scale_attr')),
                      lod=LODS[case['lod']] if 'lod' in case else '', f4=bool('f4code' in case),
-                     lodvals=bool(case.get('lodvals')), fractime=bool(case.get('fractime')))
+                     lodvals=bool(case.get('lodvals')), fractime=bool(case.get('fractime')),
+                     subnames=bool(case.get('subnames')))
         vs = []
         ntrans = 0
         try:
@@ -301,7 +309,7 @@ class Prop(core.Prop):
                            % (p['ndep'], len(p['depvars']), sorted(set(len(r) for r in p['rows']))), **scope))
         if len(p['rows']) != case['nrec']:
             vs.append(viol('record-count', sig, '%d rows for %d records' % (len(p['rows']), case['nrec']), **scope))
-        if [d[0] for d in p['depvars']] != list(NAMES[:ndep]) or p['missing'] != misses:
+        if [d[0] for d in p['depvars']] != list(self.names[:ndep]) or p['missing'] != misses:
             vs.append(viol('header-content', sig, 'vars %r missing %r' % (p['depvars'], p['missing']), **scope))
         if vs:
             return result('viol', vs, st, ntrans)
